@@ -170,6 +170,8 @@ def lin(e):
         return Lin(const=e.value)
     if isinstance(e, ast.Name):
         return Lin({e.id: 1})
+    if isinstance(e, ast.Call) and isinstance(e.func, ast.Name) and e.func.id == 'len' and len(e.args) == 1:
+        return Lin({f"len({norm(e.args[0])})": 1})
     if isinstance(e, ast.UnaryOp) and isinstance(e.op, ast.USub):
         x = lin(e.operand)
         return None if x is None else Lin({k: -v for k, v in x.terms.items()}, -x.const)
